@@ -125,6 +125,10 @@ func c09BuildTrees(base string) string {
 	w("shadow/i/x", "IN:shadow:i/x\n")
 	w("shadow/o/x", "IN:shadow:o/x\n")
 	w("shadow/sub/c", "IN:shadow:sub/c\n")
+	/* The single file is named through a symbolic link (payload ->
+	build/payload-v3); single-file mode on a plain path is what the
+	concurrency and descriptor scenarios use. */
+	os.Symlink(filepath.Join("flat", "a"), filepath.Join(root, "single-file-link"))
 	return root
 }
 
@@ -133,7 +137,7 @@ func c09FDir(root, config string) string {
 	case strings.HasPrefix(config, "dir:"):
 		return filepath.Join(root, strings.TrimPrefix(config, "dir:"))
 	case "file" == config:
-		return filepath.Join(root, "flat", "a")
+		return filepath.Join(root, "single-file-link")
 	}
 	return ""
 }
@@ -364,6 +368,7 @@ func c09(r *ev.Result, tier string) {
 	replaced. */
 	c09SingleFileConcurrent(r, root)
 	c09Descriptors(r, root)
+	c09StalledDownload(r, root)
 	r.Set("responses_by_config_and_status", statuses)
 	r.Set("targets", len(targets))
 	r.Sample(5, c09Case{Config: "dir:nested", Target: "//sub/%2e%2e/..%2f/OUTSIDE-canary.txt"})
@@ -616,4 +621,45 @@ func init() {
 		}
 		return emit()
 	}
+}
+
+// c09StalledDownload: a client asks for a file far larger than any socket
+// buffer, reads a little and then stalls; the operator has been told about
+// the request all the same (the report does not wait for the transfer).
+func c09StalledDownload(r *ev.Result, root string) {
+	big := filepath.Join(root, "big-sparse-file")
+	f, err := os.Create(big)
+	if nil != err {
+		ev.Broken("%s", err)
+	}
+	f.Truncate(256 << 20) /* Sparse: costs nothing on disk. */
+	f.Close()
+	defer os.Remove(big)
+	w, err := hworld.Start(hworld.Config{FDir: big})
+	if nil != err {
+		ev.Broken("%s", err)
+	}
+	defer w.Stop()
+	c, err := w.Dial("")
+	if nil != err {
+		ev.Broken("%s", err)
+	}
+	defer c.Close()
+	c.Send(hworld.Get("/payload", w.Addr))
+	buf := make([]byte, 1<<20)
+	c.C.SetReadDeadline(time.Now().Add(hworld.Watchdog))
+	got := 0
+	for got < len(buf) {
+		n, err := c.R.Read(buf)
+		got += n
+		if nil != err {
+			break
+		}
+	}
+	/* The client now holds a mebibyte of the file and reads no more. */
+	if _, ok := w.WaitNotice(func(cl opshell.CLine) bool { return strings.Contains(cl.Line, "File requested: ") }); !ok {
+		r.Violate(ev.Violation{Signature: "file-not-reported/stalled-download", Kind: "c09", Replay: c09Case{Config: "file", Target: "/payload (256 MiB file, client stalls after 1 MiB)"},
+			What: fmt.Sprintf("a client received %d bytes of a 256 MiB file and then stopped reading: 30 s later the operator still has not been told about the request", got)})
+	}
+	r.Add(1)
 }
